@@ -79,7 +79,7 @@ def gen_sets(rnd, count, bsizes=(2, 3, 4, 8), big=False):
 # --------------------------------------------------------------------------
 # query generator G_Q
 # --------------------------------------------------------------------------
-def gen_queries(rnd, S, limit=40):
+def gen_queries(rnd, S, limit=40, splice=40):
     """Members, proper prefixes, one-byte extensions, neighbours, out-of-alphabet."""
     Sset = set(S)
     used = sorted(set(b for s in S for b in s))
@@ -112,6 +112,41 @@ def gen_queries(rnd, S, limit=40):
         q.append(S[0][:1] + bytes([u]))
         q.append(bytes([unused[0]]))
         q.append(bytes([unused[-1]]))
+    # proof-directed family (case split of the in-bucket scan, LexLemmas.scan_trick_*): the head of
+    # one member spliced with the tail of a LATER nearby member, cut at every position beyond the
+    # point where the first member and its successor diverge
+    n = len(S)
+    for _ in range(splice):
+        i = rnd.randrange(n)
+        j = min(n - 1, i + rnd.randint(1, 6))
+        a, b2 = S[i], S[j]
+        if j == i or len(a) < 1:
+            continue
+        nxt = S[i + 1]
+        p = 0
+        while p < len(a) and p < len(nxt) and a[p] == nxt[p]:
+            p += 1
+        lo = min(len(a), p + 1)
+        s_ = rnd.randint(lo, len(a)) if lo <= len(a) else len(a)
+        if len(b2) > s_:
+            q.append(a[:s_] + b2[s_:])
+        q.append(a[:s_] + b2[-1:])
+    # ... and the exact "stale shared-prefix length" pattern: a later member whose lcp with ITS
+    # predecessor equals the cut position
+    cand = []
+    for j in range(2, n):
+        x, y = S[j - 1], S[j]
+        s_ = 0
+        while s_ < len(x) and s_ < len(y) and x[s_] == y[s_]:
+            s_ += 1
+        if s_ == 0 or len(y) <= s_:
+            continue
+        for i in range(max(0, j - 7), j - 1):
+            a = S[i]
+            if len(a) > s_ and a[:s_] != y[:s_]:
+                cand.append(a[:s_] + y[s_:])
+    rnd.shuffle(cand)
+    q += cand[:splice]
     seen, out = set(), []
     for x in q:
         if x and x not in seen:
@@ -297,6 +332,13 @@ def evaluate(case, io, mo, S=None, memreports=None):
                     tables.setdefault(pq[0], {})[int(pq[2])] = s[0]
     Sset = set(S)
     notes = io.get("notes", {})
+    crashed_extract = {}  # dict name -> set of ids whose extract did not return
+    for k, nk in notes.items():
+        for x in nk:
+            if x.startswith("crash "):
+                t = x.split()
+                if t[2] == "extract":
+                    crashed_extract.setdefault(t[1], set()).add(t[3])
     for k in range(min(len(il), len(ml))):
         a, b = il[k], ml[k]
         cmd = case.cmds[k] if k < len(case.cmds) else ""
@@ -353,6 +395,8 @@ def evaluate(case, io, mo, S=None, memreports=None):
                 if got != 0:
                     fails.append(Fail(op, "absent string located at id %d" % got, cmd, cl, dname))
             else:
+                if str(got) in crashed_extract.get(dname, ()):
+                    continue  # the extract of that id crashed: reported there
                 if not (1 <= got <= n) or tab.get(got) != q:
                     fails.append(Fail(op, "member %s located at id %d which extracts to %r" % (arg, got, tab.get(got)), cmd, cl, dname))
         elif op == "extract":
